@@ -84,3 +84,23 @@ def newline_in_format_spec(text: str | None, case: Any) -> bool:
     import re
 
     return bool(text) and bool(re.search(r"\{[^{}]*:[^{}'\"]*\r?\n", text))
+
+
+_C18_FAMILIES = None
+_SIG = None  # set by kf.match(): the signature being matched
+
+
+def c18_family_listed(text: str | None, case: Any) -> bool:
+    """The family is one of those listed (with this kind of super-linearity) in known_c18_families.json."""
+    global _C18_FAMILIES
+    import json
+    import os
+
+    if _C18_FAMILIES is None:
+        with open(os.path.join(os.path.dirname(os.path.dirname(os.path.dirname(os.path.abspath(__file__)))), "known_c18_families.json")) as f:
+            _C18_FAMILIES = json.load(f)
+    kinds = _C18_FAMILIES.get(case.get("family") if isinstance(case, dict) else None)
+    if not kinds:
+        return False
+    word = (_SIG or "").split(" ")[1] if _SIG else ""
+    return word in kinds
